@@ -65,7 +65,14 @@ SharedCauses == {"response", "authority"}
 LocalCauses  == {"budget", "attemptLimit", "deadline", "cancel", "shed", "bestEffort", "probeLimit"}
 DownLocal    == LocalKinds                                 \* what a downstream handler can report
 ASSUME LocalKinds \subseteq LocalCauses \ {"probeLimit"}
-Outcomes     == {"useful", "servfail", "authfail"} \cup DownLocal
+(* "aliasfail": the downstream answered the question NOERROR with a CNAME and the cache's
+   own alias completion (Cache.additionalAnswer, run by ResponseWriter.WriteMsg through the
+   installed Queryer) turned the reply into SERVFAIL (the alias points back at its owner,
+   directly or through its target).  The client-visible failure is produced by the SECOND
+   failure branch of WriteMsg; for the shared state it is a plain question failure of the
+   request's own five-dimensional key, exactly like "servfail". *)
+SharedFail   == {"servfail", "authfail", "aliasfail"}
+Outcomes     == {"useful"} \cup SharedFail \cup DownLocal
 
 None == [streak |-> 0, rel |-> 0, bo |-> 0, cause |-> "-"]
 Miss == [hit |-> FALSE, kind |-> "-", src |-> <<>>, streak |-> 0, rel |-> 0]
@@ -270,8 +277,8 @@ ZCause(o) == IF o \in LocalCauses THEN o ELSE "authority"
 ValidOutcome(k, o, z) ==
   /\ o \in Outcomes
   /\ \/ z = -1 /\ o # "authfail"
-     \/ z \in ZNames /\ AtOrAbove(z, k[1]) /\ o \notin {"useful", "servfail", "shed"}
-  /\ (o \in {"servfail", "authfail"} => (fq[k] # None \/ Live < MaxLive))
+     \/ z \in ZNames /\ AtOrAbove(z, k[1]) /\ o \notin {"useful", "servfail", "aliasfail", "shed"}
+  /\ (o \in SharedFail => (fq[k] # None \/ Live < MaxLive))
 
 (* what the downstream outcome does to the shared state *)
 ReqEffectSet(Q, Z, k, o, z) ==
@@ -417,7 +424,7 @@ EnvelopeStepProp ==
 OnlyWhatFailed ==
   [][(last'.op \in {"Request", "Finish"}) =>
        LET k == last'.k  o == last'.a.o  z == last'.a.z IN
-       /\ \A x \in QKeys : NewGen(fq[x], fq'[x]) => (x = k /\ o \in {"servfail", "authfail"})
+       /\ \A x \in QKeys : NewGen(fq[x], fq'[x]) => (x = k /\ o \in SharedFail)
        /\ \A x \in ZKeys : NewGen(fz[x], fz'[x]) => (o = "authfail" /\ x = <<z, k[3]>>)]_vars
 
 (* a hit for q comes from an entry equal in all five key dimensions, or from a zone
